@@ -12,7 +12,7 @@ import pickle
 import yaml
 
 from . import programs, seams
-from .loop import SimError
+from .loop import SimError, TickLimit
 
 MEDIA = ('deepcopy', 'pickle', 'yaml')
 
@@ -99,6 +99,8 @@ class RestartRun:
         self.unsavable = 0
         self.crash_states = []
         self.load_error = None
+        self.resume_error = None
+        self.runaway = None
         self.task = None
         # boundaries at which a pause is requested (from inside the transition), and those at which the PAUSED process is
         # checkpointed and abandoned instead of being played
@@ -193,8 +195,14 @@ class RestartRun:
             task = self.task = loop.create_task(proc.step_until_terminated())
             with loop.running():
                 while True:
-                    while loop.step_once():
-                        pass
+                    try:
+                        while loop.step_once():
+                            pass
+                    except TickLimit as exc:
+                        # programs here take a few dozen handles: thousands mean the process does not come to rest
+                        self.runaway = exc
+                        self.world.rec('runaway')
+                        break
                     if self.pending_bundle is not None or proc.has_terminated():
                         break
                     if proc.paused:
@@ -214,11 +222,18 @@ class RestartRun:
                                 self.world.rec('unsavable', self.boundary, type(exc).__name__)
                         proc.play()
                     elif proc.state.value == 'waiting' and not task.done():
-                        if not self._wake(proc):
+                        try:
+                            if not self._wake(proc):
+                                break
+                        except SimError:
+                            raise
+                        except Exception as exc:  # noqa: BLE001 - resume() of a waiting process raised: a verdict
+                            self.resume_error = exc
+                            self.world.rec('resume_failed', type(exc).__name__)
                             break
                     else:
                         break
-            if self.pending_bundle is None:
+            if self.pending_bundle is None or self.runaway is not None:
                 break
         self.proc = proc
         self.loop = loop
